@@ -12,7 +12,8 @@
    bijection between models and witnesses, T3 = classical criterion. *)
 From Coq Require Import ZArith List Bool.
 From Cnfgen Require Import Sem Comb Linear IR IRFacts C02Common C02CommonFacts
-  Fam_tseitin Fam_tseitin_Facts Fam_coloring Fam_coloring_Facts Fam_domset Fam_domset_Facts
+  Fam_tseitin Fam_tseitin_Facts Fam_tseitin_Forest Fam_tseitin_Conv Fam_tseitin_Count Fam_tseitin_Labels
+  Fam_coloring_Euler Fam_coloring Fam_coloring_Facts Fam_domset Fam_domset_Facts
   Fam_iso Fam_iso_Facts Fam_subgraph Fam_subgraph_Facts Fam_c02_Facts.
 Import ListNotations.
 Open Scope Z_scope.
@@ -86,19 +87,88 @@ Theorem C02_tseitin_cnf_unsat_of_odd_component : forall n E ch (S : Z -> bool) a
 Proof. exact tseitin_cnf_unsat_of_odd_component. Qed.
 Print Assumptions C02_tseitin_cnf_unsat_of_odd_component.
 
-(* NOT proved: the converse (every union of components has even charge => satisfiable) and the
-   model count 2^(|E|-|V|+c).  They are kept visible as
-     Fam_tseitin.tseitin_sat_of_even_components_statement
-     Fam_tseitin.tseitin_model_count_statement
-   and are TESTED by enumeration on all graphs with at most 4 (5) vertices in harness/c02.py.
-   The next example only shows the statements are about the right numbers. *)
+(* T3, the converse: if every union of connected components has even total charge the formula is
+   satisfiable (Fam_tseitin.tseitin_sat_of_even_components_statement, spelled out) *)
+Theorem C02_tseitin_sat_of_even_components : forall n E ch, graph_wf n E = true ->
+  (forall S, closed_under_edges S E -> charge_parity ch S n = false) ->
+  exists a, irs_hold a (tseitin_ir n E ch) = true.
+Proof. exact tseitin_sat_of_even_components. Qed.
+Print Assumptions C02_tseitin_sat_of_even_components.
+
+(* T3, both directions *)
+Theorem C02_tseitin_sat_iff : forall n E ch, edges_ok n E = true ->
+  ((exists a, irs_hold a (tseitin_ir n E ch) = true) <->
+   forall S, closed_under_edges S E -> charge_parity ch S n = false).
+Proof. exact tseitin_sat_iff. Qed.
+Print Assumptions C02_tseitin_sat_iff.
+
+(* connectivity is decided by a union-find over the edge list (Fam_tseitin_Forest.uf): two vertices get
+   the same representative iff no union of components separates them *)
+Theorem C02_connected_spec : forall E u w,
+  connected E u w = true <-> forall S, closed_under_edges S E -> S u = S w.
+Proof. exact connected_spec. Qed.
+Print Assumptions C02_connected_spec.
+
+(* T3 with the components enumerated: "the charges of every connected component sum to even",
+   and the same as an executable test *)
+Theorem C02_tseitin_sat_iff_components : forall n E ch, edges_ok n E = true ->
+  ((exists a, irs_hold a (tseitin_ir n E ch) = true) <->
+   forall x, 1 <= x <= n -> charge_parity ch (fun v => connected E v x) n = false).
+Proof. exact tseitin_sat_iff_components. Qed.
+Print Assumptions C02_tseitin_sat_iff_components.
+Theorem C02_tseitin_sat_decide : forall n E ch, edges_ok n E = true ->
+  ((exists a, irs_hold a (tseitin_ir n E ch) = true) <-> tseitin_components_even n E ch = true).
+Proof. exact tseitin_sat_decide. Qed.
+Print Assumptions C02_tseitin_sat_decide.
+
+(* MODEL COUNT as a bijection.  [free_edges E] are the identifiers of the edges outside a spanning forest
+   (those that close a cycle when the edges are inserted one by one); there are |E| - |V| + c of them,
+   c = number of connected components ([uf_components]: the vertices that represent their class).  For a
+   satisfiable formula every choice of values on the free edges extends to a model, and two models that
+   agree on the free edges agree on all the variables: models <-> boolean vectors of length |E|-|V|+c. *)
+Theorem C02_tseitin_models_bijection : forall n E ch, 0 <= n -> edges_ok n E = true ->
+  (exists a, irs_hold a (tseitin_ir n E ch) = true) ->
+  (forall g : Z -> bool, exists a, irs_hold a (tseitin_ir n E ch) = true /\ forall i, In i (free_edges E) -> a i = g i) /\
+  (forall a b, irs_hold a (tseitin_ir n E ch) = true -> irs_hold b (tseitin_ir n E ch) = true ->
+     (forall i, In i (free_edges E) -> a i = b i) -> forall i, 1 <= i <= tseitin_numvar E -> a i = b i) /\
+  NoDup (free_edges E) /\ (forall i, In i (free_edges E) -> 1 <= i <= tseitin_numvar E) /\
+  len (free_edges E) = len E - n + uf_components n E.
+Proof. exact tseitin_models_bijection. Qed.
+Print Assumptions C02_tseitin_models_bijection.
+
+(* ... and the number of models found by brute force over the 2^|E| assignments, for EVERY graph *)
+Theorem C02_tseitin_model_count : forall n E ch, 0 <= n -> edges_ok n E = true ->
+  (exists a, irs_hold a (tseitin_ir n E ch) = true) ->
+  count_models (tseitin_numvar E) (tseitin_ir n E ch) = 2 ^ (len E - n + uf_components n E).
+Proof. exact tseitin_model_count_uf. Qed.
+Print Assumptions C02_tseitin_model_count.
+
+(* the component count by label propagation (Fam_tseitin.num_components, n rounds of "both ends of every
+   edge take the smaller label") is the same number, so the count holds exactly as it was first stated
+   (Fam_tseitin.tseitin_model_count_statement, spelled out) *)
+Theorem C02_num_components_uf : forall n E, 0 <= n -> edges_ok n E = true -> num_components n E = uf_components n E.
+Proof. exact num_components_uf. Qed.
+Print Assumptions C02_num_components_uf.
+Theorem C02_tseitin_model_count_statement : forall n E ch, graph_wf n E = true ->
+  (exists a, irs_hold a (tseitin_ir n E ch) = true) ->
+  count_models (tseitin_numvar E) (tseitin_ir n E ch) = 2 ^ (len E - n + num_components n E).
+Proof. exact tseitin_model_count. Qed.
+Print Assumptions C02_tseitin_model_count_statement.
+
+(* the next example only shows the statements are about the right numbers *)
 Example C02_tseitin_count_examples :
   (* triangle, charges (1,1,0): 2^(3-3+1) models; default charge: none *)
   count_models 3 (tseitin_ir 3 [(1,2);(1,3);(2,3)] (Some [true; true; false])) = 2 ^ (3 - 3 + num_components 3 [(1,2);(1,3);(2,3)]) /\
   count_models 3 (tseitin_ir 3 [(1,2);(1,3);(2,3)] None) = 0 /\
   (* two components + an isolated vertex, even charges: 2^(4-6+3) *)
   num_components 6 [(1,2);(1,3);(2,3);(4,5)] = 3 /\
-  count_models 4 (tseitin_ir 6 [(1,2);(1,3);(2,3);(4,5)] (Some [false; true; true; true; true])) = 2.
+  count_models 4 (tseitin_ir 6 [(1,2);(1,3);(2,3);(4,5)] (Some [false; true; true; true; true])) = 2 /\
+  (* the same graph through the union-find: 3 classes, edge 1 = (1,2) closes the triangle (the head of the list is
+     inserted last), the charges are even on every component; the default charge on a triangle is not *)
+  uf_components 6 [(1,2);(1,3);(2,3);(4,5)] = 3 /\ free_edges [(1,2);(1,3);(2,3);(4,5)] = [1] /\
+  connected [(1,2);(1,3);(2,3);(4,5)] 2 3 = true /\ connected [(1,2);(1,3);(2,3);(4,5)] 3 4 = false /\
+  tseitin_components_even 6 [(1,2);(1,3);(2,3);(4,5)] (Some [false; true; true; true; true]) = true /\
+  tseitin_components_even 3 [(1,2);(1,3);(2,3)] None = false.
 Proof. vm_compute. repeat split. Qed.
 
 (* ------------------------------------------------------------------ *)
@@ -143,13 +213,25 @@ Proof. exact ec_char. Qed.
 Print Assumptions C02_ec_T1.
 
 (* T3, the documented direction ("satisfiable only on graphs with an even number of edges in each
-   connected component"): a union S of components with an odd number of edges => unsatisfiable.
-   The converse is kept as Fam_coloring.ec_sat_of_even_components_statement and tested in the harness. *)
+   connected component"): a union S of components with an odd number of edges => unsatisfiable. *)
 Theorem C02_ec_unsat_of_odd_component : forall a n E (S : Z -> bool) l,
   edges_ok n E = true -> closed_under_edges S E -> ec_ir n E = Some l ->
   Z.odd (len (filter (fun e => S (fst e)) E)) = true -> irs_hold a l = false.
 Proof. exact ec_unsat_of_odd_component. Qed.
 Print Assumptions C02_ec_unsat_of_odd_component.
+
+(* T3, the converse (Fam_coloring.ec_sat_of_even_components_statement, spelled out): all degrees even and an
+   even number of edges in every union of components => satisfiable (closed trails, coloured alternately) *)
+Theorem C02_ec_sat_of_even_components : forall n E l, graph_wf n E = true -> ec_ir n E = Some l ->
+  (forall S, closed_under_edges S E -> Z.even (len (filter (fun e => S (fst e)) E)) = true) ->
+  exists a, irs_hold a l = true.
+Proof. exact ec_sat_of_even_components. Qed.
+Print Assumptions C02_ec_sat_of_even_components.
+Theorem C02_ec_sat_iff : forall n E l, graph_wf n E = true -> ec_ir n E = Some l ->
+  ((exists a, irs_hold a l = true) <->
+   forall S, closed_under_edges S E -> Z.even (len (filter (fun e => S (fst e)) E)) = true).
+Proof. exact ec_sat_iff. Qed.
+Print Assumptions C02_ec_sat_iff.
 
 (* ------------------------------------------------------------------ *)
 (* dominating set (both encodings), tiling                             *)
